@@ -44,6 +44,7 @@ func c11StoreUnit(driver string, depth, shard, nshards int) vh.Unit {
 	evs := []string{
 		"upd N -", "upd N P1", "upd N P2", "upd N P1,P2", "upd N P1,X", "upd N X", "upd N P1,P1", "upd N P2,X,P1",
 		"upd P1 -", "upd P2 -", "set P1 hg", "upd P1 N",
+		"upd N N", "upd N N,P1", // a node that lists itself
 	}
 	evs = append(evs, c11Ticks...)
 	return vh.Unit{Name: name, Run: func(u *vh.U) {
@@ -269,6 +270,76 @@ func c11PoolUnit(driver string, depth, shard, nshards int) vh.Unit {
 	}}
 }
 
+// a keep-alive that reports a peer while that peer's own check-in (or re-registration) is being
+// written: the verdict on the peer - declared invalid, or kept and billable - must be the one of
+// some order of the two, never a mixture (declared invalid yet kept; kept yet never seen)
+func c11Race(driver, scen string, bound int) vh.Unit {
+	name := fmt.Sprintf("checkin-race/%s/%s", driver, scen)
+	ops := map[string][]string{
+		"report-vs-peer-checkin":   {"upd N P1", "upd P1 -"},
+		"report-vs-peer-reconnect": {"upd N P1", "set P1 hg"},
+		"report-two-vs-checkins":   {"upd N P1,P2", "upd P1 -", "upd P2 -"},
+		"mutual-reports":           {"upd N P1", "upd P1 N"},
+	}[scen]
+	run := func(perm []int) string {
+		vsched.ResetClock(0)
+		st := vh.NewStore(driver)
+		for _, op := range []string{"set N cl", "set P1 hg", "set P2 hp", "upd N P1,P2", "upd P1 N"} {
+			vh.ApplyStoreOp(st, op)
+		}
+		vsched.Advance(121 * time.Second) // every check-in above is now outside the window
+		res := make([]string, len(ops))
+		if perm != nil {
+			for _, i := range perm {
+				res[i] = vh.ApplyStoreOp(st, ops[i])
+			}
+		} else {
+			var fns []func()
+			for i := range ops {
+				i := i
+				fns = append(fns, func() { res[i] = vh.ApplyStoreOp(st, ops[i]) })
+			}
+			vh.Par(ops, fns...)
+		}
+		var b strings.Builder
+		fmt.Fprintf(&b, "%v", res)
+		for _, id := range []store.NodeID{"N", "P1", "P2"} {
+			ps, err := st.NodePeers(id)
+			var l []string
+			for _, p := range ps {
+				l = append(l, string(p.ID))
+			}
+			sort.Strings(l)
+			fmt.Fprintf(&b, " %s:%v/%v", id, l, err)
+		}
+		return b.String()
+	}
+	return vh.Unit{Name: name, Run: func(u *vh.U) {
+		allowed := map[string]bool{}
+		for _, perm := range permutations(len(ops)) {
+			allowed[run(perm)] = true
+		}
+		var got string
+		vh.RunDFS(u, vh.DFSSpec{
+			Name: name, Bound: bound,
+			Run:  vsched.Options{YieldFiles: []string{"memory.go", "badger.go", "helpers.go"}, Delay: len(ops) > 2},
+			Body: func() { got = run(nil) },
+			Obs:  func(s *vsched.Sched) string { return got },
+			Check: func(s *vsched.Sched) (string, string) {
+				if allowed[got] {
+					return "", ""
+				}
+				var al []string
+				for k := range allowed {
+					al = append(al, k)
+				}
+				sort.Strings(al)
+				return "checkin-race/" + driver + "/" + scen, fmt.Sprintf("after 121 s of silence, concurrently %v -> results and tracked peer sets %s\n  which no order of the same calls produces:\n  %s", ops, got, strings.Join(al, "\n  "))
+			},
+		})
+	}}
+}
+
 func shortAll(ids []string) []string {
 	r := make([]string, len(ids))
 	for i, x := range ids {
@@ -306,6 +377,18 @@ func init() {
 				for s := 0; s < 4; s++ {
 					us = append(us, c11PoolUnit(vh.Memory, 4, s, 4))
 					us = append(us, c11PoolUnit(vh.Badger, 3, s, 4))
+				}
+			}
+			for _, d := range vh.Drivers {
+				bound := 2
+				if d == vh.Badger {
+					bound = 1
+				}
+				if tier == "thorough" {
+					bound += 2
+				}
+				for _, scen := range []string{"report-vs-peer-checkin", "report-vs-peer-reconnect", "report-two-vs-checkins", "mutual-reports"} {
+					us = append(us, c11Race(d, scen, bound))
 				}
 			}
 			return us
